@@ -357,9 +357,10 @@ func (p *service) processSubscribe(msg *message.SubscribeMessage) error {
 	}
 
 	for _, rm := range p.rmsgs {
+		// One retained message that cannot be sent (larger than this connection's
+		// buffer) does not keep the others from being delivered.
 		if err := p.publish(rm, nil); err != nil {
 			log.Warningf("(%s) Error publishing retained message: %v", p.cid(), err)
-			return err
 		}
 	}
 
